@@ -18,7 +18,7 @@ PROPS = {
         assumptions=['heap, wall-clock and stack limits are observed by the worker watchdog, not proved']),
     'C02': dict(facts=['Topo', 'Calls'], keys=['C02'], tkeys=['T:pre', 'T:phase1', 'T:phase5', 'T:post', 'T:output', 'T:break'], suites=[('e2e', 2500, 60000), ('c04', 500, 10000), ('e2e-big', 8, 100)], partial=[]),
     'C03': dict(facts=['Calls'], keys=['C03'], tkeys=['T:phase2-longestpath', 'T:layers', 'T:assignY', 'T:phase4-valign', 'T:phase4-packright', 'T:post', 'T:output', 'T:break', 'T:phase4-sinkcoloring', 'K:layersWF', 'T:phase2-ns', 'T:phase4-ns', 'T:phase4-bk'], suites=[('c03', 2500, 60000), ('e2e', 500, 10000), ('e2e-big', 8, 100)], partial=[]),
-    'C04': dict(facts=['Calls'], keys=['C04', 'C09side'], tkeys=['T:phase4-valign', 'T:phase4-packright', 'T:output', 'T:phase4-sinkcoloring', 'K:layersWF', 'K:sc-blockwidth', 'T:phase4-ns'], suites=[('c04', 2500, 60000), ('e2e', 500, 10000), ('e2e-big', 8, 100)], partial=[]),
+    'C04': dict(facts=['Calls'], keys=['C04', 'C09side'], tkeys=['T:phase4-valign', 'T:phase4-packright', 'T:output', 'T:phase4-sinkcoloring', 'K:layersWF', 'K:sc-blockwidth', 'K:layered', 'T:phase4-ns'], suites=[('c04', 2500, 60000), ('e2e', 500, 10000), ('e2e-big', 8, 100)], partial=[]),
     'C05': dict(facts=['Calls'], keys=['C05'], tkeys=['T:phase5', 'T:post', 'T:output', 'T:break'], suites=[('c05', 2500, 60000), ('e2e', 500, 10000), ('e2e-big', 8, 100), ('e2e-huge', 8, 100)], partial=[]),
     'C06': dict(facts=['Calls'], keys=['C06'], tkeys=['T:phase5', 'T:output', 'T:break'], suites=[('c06', 2500, 60000), ('e2e', 500, 10000), ('e2e-big', 8, 100)], partial=[]),
     'C07': dict(facts=['Maps', 'Shared', 'Calls'], keys=['C07rep', 'C07input', 'C07fresh'], tkeys=['T:phase2-ns', 'T:phase4-sinkcoloring'], suites=[('e2e', 2500, 60000), ('e2e-big', 8, 100), ('e2e-dec', 400, 8000)],
